@@ -35,6 +35,9 @@ import (
 	"github.com/wi1dcard/fingerproxy/pkg/reverseproxy"
 )
 
+// FragmentInCipherList as DialOpts.Fragment / RecConn.FragmentAt: see RecConn.FragmentAt
+const FragmentInCipherList = -1
+
 type BackendReq struct {
 	Seq        int
 	Method     string
@@ -272,7 +275,7 @@ type RecConn struct {
 	Gap     time.Duration // pause between pieces
 	// FragmentAt > 0: the first handshake record written is re-framed into two TLS records, the first
 	// carrying FragmentAt bytes of the handshake message (a ClientHello spanning two records).
-	FragmentAt int
+	FragmentAt int // FragmentInCipherList: the cut falls one octet before the end of the cipher suite list
 	fragDone   bool
 	// TailCCS > 0: the first handshake record is sent in two TCP segments - TailCCS bytes, a pause, then the rest of the record
 	// together with a change_cipher_spec record (as TLS 1.3 clients in middlebox-compatibility mode may coalesce them)
@@ -320,12 +323,26 @@ func (c *RecConn) Write(p []byte) (int, error) {
 		}
 		return len(p), nil
 	}
-	if c.FragmentAt > 0 && !c.fragDone && len(p) >= 5 && p[0] == 22 {
+	if c.FragmentAt != 0 && !c.fragDone && len(p) >= 5 && p[0] == 22 {
 		c.fragDone = true
 		n := int(p[3])<<8 | int(p[4])
 		if len(p) >= 5+n && n >= 2 {
 			k := c.FragmentAt
-			if k >= n {
+			if k == FragmentInCipherList {
+				// one octet before the end of the cipher suite list: handshake header (4), version (2), random (32), session id, list length (2)
+				body := p[5 : 5+n]
+				k = n / 2
+				if len(body) > 39 {
+					sid := int(body[38])
+					if len(body) > 39+sid+2 {
+						cs := int(body[39+sid])<<8 | int(body[39+sid+1])
+						if cs >= 2 && 39+sid+2+cs < n {
+							k = 39 + sid + 2 + cs - 1
+						}
+					}
+				}
+			}
+			if k >= n || k < 0 {
 				k = n / 2
 			}
 			body := p[5 : 5+n]
